@@ -9,8 +9,7 @@ from kvstatic.astutil import (find_all, attr_chain, is_name, call_name, body_no_
                               walk_no_nested_funcs)
 
 
-def cz(x):
-    return norm(x).replace(' ', '').replace('\n', '')
+from kvstatic.paths import cz, czs  # noqa: E402
 
 
 def run(rep: Report, repo: Repo):
@@ -155,7 +154,18 @@ def map_rules(rep, repo):
     sl = next((s for s in body if isinstance(s, ast.If) and cz(s.test) == 'strip_forks'), None)
     if sl is not None:
         t = cz(sl)
-        st_ok = st_ok and "forfincircuit.forks.values():iffininterface_dict:continueprev_line=f.ins[0]whileprev_line.driver.kind=='__fork__'andprev_line.drivernotininterface_dict:prev_line=prev_line.driver.ins[0]stem_idx=prev_line.indexforolinf.outs:ifolisnotNone:stems[ol]=stem_idx" in t
+        want = czs("""
+            for f in circuit.forks.values():
+                if f in interface_dict: continue
+                prev_line = f.ins[0]
+                while prev_line.driver.kind == '__fork__' and prev_line.driver not in interface_dict:
+                    prev_line = prev_line.driver.ins[0]
+                stem_idx = prev_line.index
+                for ol in f.outs:
+                    if ol is not None:
+                        stems[ol] = stem_idx
+            """)
+        st_ok = st_ok and [cz(x) for x in sl.body] == [want]
     else:
         st_ok = False
     rep.ob('C08.alias', 'stems maps every fork output to the line before the first fork of its chain', st_ok)
